@@ -48,6 +48,11 @@ Proof. exact table_isolation. Qed.
 Theorem C24_nested : forall p q u, wf_st u -> view (Tab q (Tab p u)) = kv_table_view (p ++ q) (view u).
 Proof. exact view_nested. Qed.
 
+(* reflect.go: prefixes accepted by uniqKeys.Check (OpenTables) are pairwise incomparable, hence the
+   isolation theorem applies to the tables they create *)
+Theorem C24_uniq_check_sound : forall keys, uniq_check keys = true -> pairwise_incomparable keys.
+Proof. exact uniq_check_sound. Qed.
+
 (* incPrefix (through math/big as coded): nil exactly for empty / all-0xff prefixes, never out
    of fuel, and [p, incPrefix p) contains every key with prefix p *)
 Theorem C24_inc_prefix : forall p, wf_bytes p = true ->
@@ -88,6 +93,8 @@ Proof. cbn. repeat split; repeat constructor. Qed.
 Example C24_ex_incomparable : has_prefix [0; 255] [0] = false /\ has_prefix [0] [0; 255] = true /\
   has_prefix [97] [255] = false /\ has_prefix [255] [97] = false.
 Proof. repeat split. Qed.
+Example C24_ex_uniq : uniq_check [[97]; [98; 0]; [99]] = true /\ uniq_check [[97]; [97; 0]] = false.
+Proof. split; reflexivity. Qed.
 Example C24_ex_inc : inc_prefix [0; 255] = IncSome [1; 0] /\ inc_prefix [255; 255] = IncNil /\
   inc_prefix [] = IncNil /\ inc_prefix [97; 0] = IncSome [97; 1] /\ prefix_succ [0; 255] = Some [1].
 Proof. repeat split; vm_compute; reflexivity. Qed.
@@ -104,6 +111,7 @@ Print Assumptions C24_table_write.
 Print Assumptions C24_table_write_outside.
 Print Assumptions C24_isolation.
 Print Assumptions C24_nested.
+Print Assumptions C24_uniq_check_sound.
 Print Assumptions C24_inc_prefix.
 Print Assumptions C24_inc_prefix_nil.
 Print Assumptions C24_compact_covers.
